@@ -58,7 +58,8 @@ def refusing(maxpos):
     ops += [("veto_int", "SI 0 %s 0 -4" % hx("i")), ("veto_int_list", "SI 0 %s 1 -4" % hx("l")), ("veto_str", "SS 0 %s 0 %s" % (hx("s"), hx("!no"))),
             ("wrong_type", "SI 0 %s 0 1" % hx("s")), ("wrong_type2", "SS 0 %s 0 %s" % (hx("i"), hx("q"))), ("wrong_type3", "SB 0 %s 0 1" % hx("l")),
             ("bad_index", "SI 0 %s 3 1" % hx("i")), ("bad_index_str", "SS 0 %s 1 %s" % (hx("s"), hx("q"))),
-            ("addtsec_existing", "AT 0 %s %s" % (hx("m"), hx("a"))), ("rmtsec_missing", "RT 0 %s %s" % (hx("m"), hx("zz"))),
+            ("addtsec_existing", "AT 0 %s %s" % (hx("m"), hx("a"))), ("addtsec_nonsection", "AT 0 %s %s" % (hx("i"), hx("9"))),
+            ("addtsec_nonsection_list", "AT 0 %s %s" % (hx("l"), hx("9"))), ("addtsec_no_title", "AT 0 %s -" % hx("m")), ("rmtsec_missing", "RT 0 %s %s" % (hx("m"), hx("zz"))),
             ("rmnsec_missing", "RN 0 %s 7" % hx("m")), ("rmsec_missing", "RS 0 %s" % hx("m=zz")),
             ("setopt_bad_int", "SO 0 %s %s" % (hx("i"), hx("9x"))), ("setopt_bad_list", "SO 0 %s %s" % (hx("l"), hx("0x"))),
             ("setopt_bad_float", "SO 0 %s %s" % (hx("f"), hx("inf"))), ("setopt_bad_bool", "SO 0 %s %s" % (hx("b"), hx("maybe"))),
